@@ -98,6 +98,16 @@ inductive InsRes (K V : Type) where
   /-- the Go code would dereference a nil child (ill-formed tree) -/
   | crash
 
+/-- first `i` in `[i₀, i₀ + fuel)` with `p i` -/
+def firstIdx (p : Nat → Bool) : Nat → Nat → Option Nat
+  | 0, _ => none
+  | fuel + 1, i => if p i then some i else firstIdx p fuel (i + 1)
+
+/-- the amalgam position at which `amalgam1.Child` hands out the extra child (`afterK`), given
+`extraIdx = e`: the first `i ≤ e + 1` that satisfies the generated test `i == a.extraIdx+1`. `none`:
+the extra child is never handed out. -/
+def extraChildPos (e : Nat) : Option Nat := firstIdx (fun i => amalgamExtraChildIdx i e) (e + 2) 0
+
 /-- one round of `overfill`'s loop on the full node `(id, kvs, kids)`: build the amalgam with the
 extra entry `kv` and its right child `afterK`, cut it at `medianIdx`. -/
 def overfillNode (cmp : K → K → Int) (id : Nat) (kvs : List (K × V)) (kids : List (Node K V))
@@ -106,7 +116,10 @@ def overfillNode (cmp : K → K → Int) (id : Nat) (kvs : List (K × V)) (kids 
   let all := insertAt kvs e kv
   let allKids := match afterK with
     | none => kids
-    | some r => insertAt kids (e + 1) r
+    | some r =>
+      match extraChildPos e with
+      | some p => insertAt kids p r
+      | none => kids
   let sep := all.getD medianIdx.toNat kv
   let left := Node.mk id (all.take leftN.toNat) (allKids.take (leftN.toNat + 1))
   let right := Node.mk fresh ((all.drop (rightFirstIdx 0).toNat).take rightN.toNat)
@@ -268,6 +281,30 @@ def mergeAt (kvs : List (K × V)) (kids : List (Node K V)) (a : Nat) :
           kids.take a ++ .mk li (lkvs ++ sep :: rkvs) (lkids ++ rkids) :: kidsAfter)
   | _, _ => none
 
+/-- position among the parent's children of a node variable of `steal` / `merge`, `x` being child `j` -/
+def argIdx (j : Nat) : NodeArg → Nat
+  | .x => j
+  | .left => j - 1
+  | .right => j + 1
+
+/-- execute the call `t.rotateLeft(a, b)` / `t.rotateRight(a, b)` / `t.mergeTwo(a, b)` that the generated
+fact says `steal` / `merge` make for the underfull child `j`. All three helpers assume that `a` is the
+immediate left sibling of `b` (they locate the separator by `xslices.Index(parent.children, ·)` of one
+of the two); a call on any other pair of nodes, or a statement list of another shape (`none`), cannot
+be followed by this model: `none`. The third component is `some a` when children `a`, `a+1` were merged. -/
+def repairCall (call : Option (Callee × NodeArg × NodeArg)) (kvs : List (K × V)) (kids : List (Node K V)) (j : Nat) :
+    Option (List (K × V) × List (Node K V) × Option Nat) :=
+  match call with
+  | none => none
+  | some (f, a, b) =>
+    let ia := argIdx j a
+    if argIdx j b = ia + 1 then
+      match f with
+      | .rotateLeft => (rotateLeftAt kvs kids ia).map fun r => (r.1, r.2, none)
+      | .rotateRight => (rotateRightAt kvs kids ia).map fun r => (r.1, r.2, none)
+      | .mergeTwo => (mergeAt kvs kids ia).map fun r => (r.1, r.2, some ia)
+    else none
+
 /-- Child `j` of the node `(kvs, kids)` is underfull: `steal` (right sibling first, then left), else
 `merge` (into the left sibling if it exists and has `n <= minKVs`, else with the right one).
 Result: new `kvs`, `kids`, and `some a` if children `a`,`a+1` were merged into child `a`.
@@ -279,16 +316,13 @@ def fixChild (kvs : List (K × V)) (kids : List (Node K V)) (j : Nat) :
   let right? : Option (Node K V) := if hasRightSibling j pn then kids[(rightSiblingIdx j).toNat]? else none
   let ln : Int := match left? with | some l => l.n | none => 0
   let rn : Int := match right? with | some r => r.n | none => 0
-  if stealRight right?.isSome rn then
-    (rotateLeftAt kvs kids j).map fun r => (r.1, r.2, none)
-  else if stealLeft left?.isSome ln then
-    (rotateRightAt kvs kids (j - 1)).map fun r => (r.1, r.2, none)
-  else if mergeIntoLeft left?.isSome ln then
-    (mergeAt kvs kids (j - 1)).map fun r => (r.1, r.2, some (j - 1))
+  if stealRight right?.isSome rn then repairCall stealRightCall kvs kids j
+  else if stealLeft left?.isSome ln then repairCall stealLeftCall kvs kids j
+  else if mergeIntoLeft left?.isSome ln then repairCall mergeLeftCall kvs kids j
   else
     match right? with
     | none => none
-    | some _ => (mergeAt kvs kids j).map fun r => (r.1, r.2, some j)
+    | some _ => repairCall mergeRightCall kvs kids j
 
 inductive DelRes (K V : Type) where
   /-- the key is not in the subtree: nothing changes -/
@@ -307,9 +341,11 @@ def finish (rootId id : Nat) (kvs : List (K × V)) (kids : List (Node K V)) (j :
   | some (kvs', kids', some a) =>
     if mergeRootCheck id rootId then
       if mergeRootEmpty kvs'.length then
-        match kids'[a]? with
-        | some l => .done l false
-        | none => .crash
+        if mergeCollapseSetsRoot then
+          match kids'[a]? with
+          | some l => .done l false
+          | none => .crash
+        else .done (.mk id kvs' kids') false
       else .done (.mk id kvs' kids') false
     else .done (.mk id kvs' kids') (mergeCascades kvs'.length false)
 
@@ -386,7 +422,10 @@ decreasing_by
 /-- `btree.Delete`; `none` = nil dereference (ill-formed tree only). -/
 def delete (cmp : K → K → Int) (t : Tree K V) (k : K) : Option (Tree K V) :=
   match del cmp k t.root.id t.root with
-  | .absent => some t
+  | .absent =>
+    -- `if curr.leaf() { return }` before `t.size--; t.gen++`; without that `return` the loop goes on
+    -- into `curr.children[idx]` of a leaf: nil dereference
+    if deleteMissReturnsFirst then some t else none
   | .crash => none
   | .done r _ =>
     some { root := r, size := if deleteDecSize then t.size - 1 else t.size,
@@ -428,16 +467,29 @@ def findNode (id : Nat) (x : Node K V) : Option (Node K V) := (pathTo id x).map 
 
 def posAt (x : Node K V) (i : Nat) : Option (Pos K) := (x.kvs[i]?).map fun kv => ⟨x.id, i, kv.1⟩
 
-/-- `cursor.lost()`. A node that is no longer in the tree was unlinked by `mergeTwo` (which sets its
-`n` to 0, `Gen.mergeZeroesRight`) or is a collapsed root (whose `n` is 0). -/
+/-- `n` of a node object that is no longer in the tree: it was unlinked by `mergeTwo`, which sets its `n` to 0
+(`Gen.mergeZeroesRight`; a collapsed root has `n = 0` anyway). Were that statement missing the dead node would
+keep its old contents: modelled as "still holds the cursor's key at the cursor's index". -/
+def retiredN (i : Nat) : Int := if mergeZeroesRight then 0 else (i : Int) + 1
+
+/-- `cursor.lost()` of a cursor with `curr != nil`. -/
 def lostAt (cmp : K → K → Int) (t : Tree K V) (c : Cursor K) : Bool :=
   match c.pos with
   | none => lost c.gen t.gen false 0 0 0
   | some p =>
     match findNode p.id t.root with
-    | none => lost c.gen t.gen true p.i 0 0
+    | none => lost c.gen t.gen true p.i (retiredN p.i) 0
     | some x =>
       lost c.gen t.gen true p.i x.n (match x.kvs[p.i]? with | some kv => cmp p.k kv.1 | none => 0)
+
+/-- `cursor.lost()` of a cursor with `curr == nil` **as the Go code evaluates it**: the expression must not
+consult `c.curr.n` / `c.curr.keys[c.i]` (a nil dereference). The regenerated expression `lost` is evaluated
+with `hasCurr = false` for different would-be values of `n` and of the comparison: if its outcome depends on
+them, the code reads through the nil pointer — the guard `c.curr != nil &&` is what prevents that. -/
+def lostDerefsNil (cgen tgen : Int) : Bool :=
+  !(lost cgen tgen false 0 0 0 == lost cgen tgen false 0 1 0 &&
+    lost cgen tgen false 0 0 0 == lost cgen tgen false 0 1 1 &&
+    lost cgen tgen false 0 0 0 == lost cgen tgen false 0 0 1)
 
 def climbNext : List (Node K V × Nat) → Option (Pos K)
   | [] => none
@@ -526,7 +578,7 @@ def seekWith (step : Int → Bool) (fwd : Bool) (cmp : K → K → Int) (t : Tre
   | (c', true) =>
     match c'.pos with
     | none => c'
-    | some p => if step (cmp k p.k) then (if fwd then stepFwd cmp t c' else stepBwd cmp t c') else c'
+    | some p => if step (cmp k p.k) && seekStepCalls then (if fwd then stepFwd cmp t c' else stepBwd cmp t c') else c'
 
 def seekFirstGreaterOrEqual (cmp : K → K → Int) := seekWith (K := K) (V := V) seekFirstGreaterOrEqualStep true cmp
 def seekFirstGreater (cmp : K → K → Int) := seekWith (K := K) (V := V) seekFirstGreaterStep true cmp
@@ -548,7 +600,7 @@ def cursorNext (cmp : K → K → Int) (t : Tree K V) (c : Cursor K) : Cursor K 
   match c.pos with
   | none => c
   | some p =>
-    if lostAt cmp t c then seekFirstGreater cmp t c p.k
+    if lostAt cmp t c && cursorLostReseeks then seekFirstGreater cmp t c p.k
     else { c with pos := nextCore t p }
 
 /-- `cursor.Prev` -/
@@ -556,10 +608,10 @@ def cursorPrev (cmp : K → K → Int) (t : Tree K V) (c : Cursor K) : Cursor K 
   match c.pos with
   | none => c
   | some p =>
-    if lostAt cmp t c then seekLastLess cmp t c p.k
+    if lostAt cmp t c && cursorLostReseeks then seekLastLess cmp t c p.k
     else { c with pos := prevCore t p }
 
-/-! ## Iterators: `forwardIterator` / `backwardIterator` wrapped in `iterator.While` -/
+/-! ## Iterators: `forwardIterator` / `backwardIterator` with their in-range predicate -/
 
 def evalOp : CmpOp → Int → Bool
   | .lt, c => decide (c < 0)
@@ -570,8 +622,10 @@ def evalOp : CmpOp → Int → Bool
 structure Iter (K : Type) where
   c : Cursor K
   fwd : Bool
-  /-- the `While` predicate `compare(pair.Key, key) op 0`; `none` = the bare cursor iterator -/
+  /-- the in-range predicate `compare(k, key) op 0` installed by `ForwardWhile` / `BackwardWhile`;
+  `none` = `Forward()` / `Backward()` (`inRange == nil`) -/
   stop : Option (CmpOp × K)
+  /-- the field `done`: the predicate has failed once -/
   done : Bool
 
 /-- `valueUnchecked`: `c.curr.values[c.i]` -/
@@ -580,7 +634,19 @@ def valueAt (t : Tree K V) (p : Pos K) : Option V :=
   | none => none
   | some x => (x.kvs[p.i]?).map (·.2)
 
-/-- `forwardIterator.Next` / `backwardIterator.Next` -/
+/-- the re-seek at the top of `forwardIterator.Next` / `backwardIterator.Next`:
+`if iter.c.lost() { iter.c.SeekFirstGreaterOrEqual(iter.c.Key()) }` (backward: `SeekLastLessOrEqual`) -/
+def iterReseek (cmp : K → K → Int) (t : Tree K V) (fwd : Bool) (c : Cursor K) : Cursor K :=
+  match c.pos with
+  | none => c
+  | some p =>
+    if lostAt cmp t c && iterReseeks then
+      (if fwd then seekFirstGreaterOrEqual cmp t c p.k else seekLastLessOrEqual cmp t c p.k)
+    else c
+
+/-- `forwardIterator.Next` / `backwardIterator.Next` of an iterator without predicate (`Forward()` /
+`Backward()`), as one function of the cursor. (Reference formulation: the bounded iterators used to be this
+wrapped in `iterator.While`; `Proofs/TreeWhile.lean` shows that formulation equivalent to `iterNext`.) -/
 def rawNext (cmp : K → K → Int) (t : Tree K V) (fwd : Bool) (c : Cursor K) : Cursor K × Option (K × Option V) :=
   let c1 :=
     match c.pos with
@@ -596,21 +662,39 @@ def rawNext (cmp : K → K → Int) (t : Tree K V) (fwd : Bool) (c : Cursor K) :
     let c2 := if fwd then cursorNext cmp t c1 else cursorPrev cmp t c1
     (c2, some (p.k, v))
 
-/-- `Next` of the iterator returned by `Range` / `RangeReverse`. -/
+/-- `if iter.done` -/
+def iterChecksDone (fwd done : Bool) : Bool := if fwd then fwdChecksDone done else bwdChecksDone done
+/-- `if iter.inRange != nil && !iter.inRange(k)` -/
+def iterStops (fwd hasPred inRange : Bool) : Bool := if fwd then fwdStops hasPred inRange else bwdStops hasPred inRange
+/-- the two early exits return `zero, false` and the cut-off sets `iter.done = true` -/
+def iterCutoffSticky (fwd : Bool) : Bool := if fwd then fwdCutoffSticky else bwdCutoffSticky
+
+/-- `Next` of the iterator returned by `Range` / `RangeReverse` (`forwardIterator.Next` /
+`backwardIterator.Next`): the sticky cut-off, the re-seek of a lost cursor, the end of the tree, the key,
+**the in-range test on the key, and only then the value read** and the cursor move. -/
 def iterNext (cmp : K → K → Int) (t : Tree K V) (it : Iter K) : Iter K × Option (K × Option V) :=
-  match it.stop with
-  | none =>
-    let r := rawNext cmp t it.fwd it.c
-    ({ it with c := r.1 }, r.2)
-  | some (op, key) =>
-    if whileChecksDone it.done then (it, none)
-    else
-      let r := rawNext cmp t it.fwd it.c
-      match r.2 with
-      | none => ({ it with c := r.1 }, none)
-      | some (k, v) =>
-        if whileStops (evalOp op (cmp k key)) then ({ it with c := r.1, done := whileSticky || it.done }, none)
-        else ({ it with c := r.1 }, some (k, v))
+  if iterChecksDone it.fwd it.done then (it, none)
+  else
+    let c1 := iterReseek cmp t it.fwd it.c
+    match c1.pos with
+    | none => ({ it with c := c1 }, none)
+    | some p =>
+      let inRange := match it.stop with
+        | some (op, key) => evalOp op (cmp p.k key)
+        | none => true
+      if iterStops it.fwd it.stop.isSome inRange then
+        ({ it with c := c1, done := iterCutoffSticky it.fwd || it.done }, none)
+      else
+        let c2 := if it.fwd then cursorNext cmp t c1 else cursorPrev cmp t c1
+        -- `v := iter.c.valueUnchecked()` precedes `iter.c.Next()` (else the value of the *next* entry would be read)
+        let v := if iterReadsThenSteps then valueAt t p else c2.pos.bind (valueAt t)
+        ({ it with c := c2 }, some (p.k, v))
+
+/-- **`Next` panics** (nil dereference): past the `done` check the first thing `Next` does is `iter.c.lost()`;
+on an iterator that has run off the edge (`curr == nil`: exhausted, or created on an empty range) that call
+must not look through `curr`. -/
+def iterNextPanics (t : Tree K V) (it : Iter K) : Bool :=
+  !iterChecksDone it.fwd it.done && it.c.pos.isNone && lostDerefsNil it.c.gen t.gen
 
 /-- a `tree.Bound`: `kind = none` is the zero `Bound{}` (the code panics "unknown bound") -/
 structure Bound (K : Type) where
@@ -648,9 +732,9 @@ def mkIter (cmp : K → K → Int) (t : Tree K V)
       | some bk2 =>
         match stopTbl.2.find? (fun r => r.1 == bk2) with
         | none => none
-        | some (_, .all fwd) => some { c := c, fwd := fwd, stop := none, done := false }
+        | some (_, .all fwd) => some { c := c, fwd := fwd, stop := none, done := !iterCtorsFresh }
         | some (_, .while fwd op s) =>
-          some { c := c, fwd := fwd, stop := some (op, (pickSide s lo hi).key), done := false }
+          some { c := c, fwd := fwd, stop := some (op, (pickSide s lo hi).key), done := !iterCtorsFresh }
 
 def range (cmp : K → K → Int) (t : Tree K V) (lo hi : Bound K) : Option (Iter K) :=
   mkIter cmp t rangeSeek rangeStop lo hi
